@@ -356,30 +356,42 @@ func famMemwalk(r *rand.Rand, idx int) caseInput {
 			if base+first+stride*cnt+8 < ms {
 				base += first
 			}
-			l := e.newLabel()
-			e.emit("li s0, %d", base)
-			e.emit("li s3, %d", cnt)
-			e.label(l)
-			switch r.Intn(4) {
-			case 0:
-				e.emit("lw t0, 0(s0)")
-				acc("t0")
-			case 1:
-				e.emit("sw a0, 0(s0)")
-				e.emit("addi a0, a0, 3")
-			case 2:
-				e.emit("lw t0, 0(s0)")
-				acc("t0")
-				e.emit("sw a0, 4(s0)")
-			default:
-				e.emit("lb t0, 1(s0)")
-				acc("t0")
-				e.emit("sb a0, 2(s0)")
-				e.emit("sh a0, 4, s0")
+			// a sparse sweep (one access per line or per L3 line) is sometimes repeated over the same range:
+			// what the first pass left dirty has been pushed down the hierarchy when the next pass reads it
+			passes := 1
+			if stride >= 64 && r.Intn(3) == 0 {
+				passes = 2 + r.Intn(2)
 			}
-			e.emit("addi s0, s0, %d", stride)
-			e.emit("addi s3, s3, -1")
-			e.emit("bnez s3, %s", l)
+			body := r.Intn(4)
+			for p := 0; p < passes; p++ {
+				l := e.newLabel()
+				e.emit("li s0, %d", base)
+				e.emit("li s3, %d", cnt)
+				e.label(l)
+				switch body {
+				case 0:
+					e.emit("lw t0, 0(s0)")
+					acc("t0")
+					if passes > 1 {
+						e.emit("sw a0, 0(s0)")
+					}
+				case 1:
+					e.emit("sw a0, 0(s0)")
+					e.emit("addi a0, a0, 3")
+				case 2:
+					e.emit("lw t0, 0(s0)")
+					acc("t0")
+					e.emit("sw a0, 4(s0)")
+				default:
+					e.emit("lb t0, 1(s0)")
+					acc("t0")
+					e.emit("sb a0, 2(s0)")
+					e.emit("sh a0, 4, s0")
+				}
+				e.emit("addi s0, s0, %d", stride)
+				e.emit("addi s3, s3, -1")
+				e.emit("bnez s3, %s", l)
+			}
 		case 2: // ping-pong between lines that conflict over capacity: 17+ distinct lines revisited
 			nl := 17 + r.Intn(8)
 			base := 64 * (1 + r.Intn(ms/64-nl-2))
